@@ -105,7 +105,7 @@ CLAIMED = {
     },
     "C18": {
         "technique": "Coq proof (capacity lemmas by induction over request lists; doubling of the first candidate of the sizing policy) + correspondence of request sizes",
-        "text": "C18_capacity_honoured / C18_capacity_exact / C18_with_capacity_size / C18_growth_doubles / C18_source_chunk_size / C18_source_chunk_capacity / C18_source_slow_path / C18_source_frames / C18_actual_consts_small / C18_vec_reserve_doubles / C18_vec_reserved_capacity / C18_vec_reallocations_logarithmic. " + ARENA_TEXT + "Spec predicate sp_growth_ok on every chunk obtained at the first attempt; the vec engine adds growth probes (reallocations of a growing Vec/String are at most log2(n)+2 for element sizes 1..4096; reserved capacity accepts n elements without moving). Whole histories: C18_policy_first_candidate_or_nothing / C18_history_doubling_chain / C18_arena_growth_logarithmic (over every history of the crate's policy with a granting allocator and no limit, default*2^(chunks-1) <= newest chunk and everything held <= 2*newest) / C18_new_chunk_bounded; the executable form sp_chain_ok is evaluated on the blocks really held after every operation of every generous history. Partial: the constant factor between held memory and the bytes requested is not summed into one theorem.",
+        "text": "C18_capacity_honoured / C18_capacity_exact / C18_with_capacity_size / C18_growth_doubles / C18_source_chunk_size / C18_source_chunk_capacity / C18_source_slow_path / C18_source_frames / C18_actual_consts_small / C18_vec_reserve_doubles / C18_vec_reserved_capacity / C18_vec_reallocations_logarithmic. " + ARENA_TEXT + "Spec predicate sp_growth_ok on every chunk obtained at the first attempt; the vec engine adds growth probes (reallocations of a growing Vec/String are at most log2(n)+2 for element sizes 1..4096; reserved capacity accepts n elements without moving). Whole histories: C18_policy_first_candidate_or_nothing / C18_history_doubling_chain / C18_arena_growth_logarithmic (over every history of the crate's policy with a granting allocator and no limit, default*2^(chunks-1) <= newest chunk and everything held <= 2*newest) / C18_new_chunk_bounded; the executable form sp_chain_ok is evaluated on the blocks really held after every operation of every generous history. Partial: the constant factor between held memory and the bytes requested is not summed into one theorem. C18_source_constructor / C18_constructor_assembled_from_source_parts (try_with_min_align_and_capacity: the two assertions, the zero test, the layout and the absence of a given chunk size parsed from lib.rs on every run; the model's with_capacity is assembled from them).",
         "design_ref": "DESIGN.md §6 C18",
     },
     "C20": {
